@@ -13,7 +13,6 @@ From PV Require Export Wire.Lex Wire.Strings.
 Local Open Scope N_scope.
 
 Definition EXC_UNICODE : N := 1.   (* UnicodeDecodeError escapes *)
-Definition EXC_HANG : N := 2.      (* the decoding loop never terminates *)
 
 (* ------------------------------------------------------------- UTF-16 *)
 Definition is_high (u : N) : bool := in_range 55296 56319 u.   (* D800..DBFF *)
@@ -166,8 +165,8 @@ Fixpoint dec (st : option bytes) (b : bytes) (acc : list N) : result (list N) :=
   | [] =>
     match st with
     | None => Ok (rev acc)
-    | Some [] => bind (mb64_decode []) (fun cps => Ok (rev (rev cps ++ acc)))
-    | Some _ => Exc EXC_HANG     (* no '-' after '&': the while loop spins *)
+    | Some src =>                (* unterminated shift sequence: decoded as if closed *)
+      bind (mb64_decode (rev src)) (fun cps => Ok (rev (rev cps ++ acc)))
     end
   | c :: r =>
     match st with
@@ -206,9 +205,11 @@ Definition mailbox_norm (s : list N) : list N := if is_inbox_str s then INBOX el
 (* bytes(Mailbox(name)): what LIST and STATUS print *)
 Definition print_mailbox (s : list N) : bytes :=
   if is_inbox_str s then INBOX else print_astring (modutf7_encode s).
-(* Mailbox.parse; an exception raised by modutf7_decode is the value [Exc k] *)
-Definition parse_mailbox (p : sparams) (cs : list bytes) (b : bytes) : pres (result (list N)) :=
+(* Mailbox.parse; a UnicodeError raised by modutf7_decode is NotParseable *)
+Definition parse_mailbox (p : sparams) (cs : list bytes) (b : bytes) : pres (list N) :=
   pbind (parse_astring p cs b) (fun vr rest cs' =>
-    POk (if bytes_eqb (upper_bytes (fst vr)) INBOX then Ok INBOX
-         else bind (modutf7_decode (fst vr)) (fun s => Ok (mailbox_norm s)))
-        rest cs').
+    if bytes_eqb (upper_bytes (fst vr)) INBOX then POk INBOX rest cs'
+    else match modutf7_decode (fst vr) with
+         | Ok s => POk (mailbox_norm s) rest cs'
+         | _ => PFail
+         end).
